@@ -14,6 +14,7 @@ import (
 	"io"
 	"os"
 	"sort"
+	"strconv"
 	"strings"
 	"sync/atomic"
 	"syscall"
@@ -156,10 +157,13 @@ func (st *runState) checkLookup(how string, proc, id int, data []byte, e cache.E
 				continue
 			}
 			for _, y := range st.puts {
-				if y.id == id && int64(y.size) == e.Size && len(data) == y.size && y.size < x.size {
+				// the stale size: that of the other Put, or - the writer died
+				// inside the 20-character size field - the first k characters
+				// of the new field followed by the rest of the old one
+				if y.id == id && y.size != x.size && tornSize(x.size, y.size, e.Size) && int64(len(data)) == e.Size && len(data) < x.size {
 					full := content(x.c, st.c.Contents[x.c%len(st.c.Contents)])
 					if bytes.Equal(full[:len(data)], data) {
-						st.fail("getfile-serves-prefix-after-torn-entry-and-truncated-data-file", "process %d: GetFile(id %d) returned a file holding the first %d of %d bytes stored by one Put; the index entry carries that Put's output id %x but the size %d of another Put under the same id (torn in-place rewrite), and the data file was truncated to exactly that size", proc, id, len(data), x.size, e.OutputID[:6], e.Size)
+						st.fail("getfile-serves-prefix-after-torn-entry-and-truncated-data-file", "process %d: GetFile(id %d) returned a file holding the first %d of %d bytes stored by one Put; the index entry carries that Put's output id %x but the size %d, which is the size of another Put under the same id or a mixture of the two 20-character size fields (torn in-place rewrite), and the data file was truncated to exactly that size", proc, id, len(data), x.size, e.OutputID[:6], e.Size)
 						return
 					}
 				}
@@ -167,6 +171,20 @@ func (st *runState) checkLookup(how string, proc, id int, data []byte, e cache.E
 		}
 	}
 	st.fail("lookup-wrong-bytes:"+how, "process %d: %s(id %d) yielded %d bytes (sha256 %x; index entry: output %x size %d) that no Put under this id was ever invoked with", proc, how, id, len(data), sum[:6], e.OutputID[:6], e.Size)
+}
+
+// tornSize reports whether size is what an index entry's size field reads
+// as after an in-place rewrite from oldSize to newSize that was killed after
+// k of the field's 20 characters (k = 0: still the old size).
+func tornSize(newSize, oldSize int, size int64) bool {
+	fn, fo := fmt.Sprintf("%20d", newSize), fmt.Sprintf("%20d", oldSize)
+	for k := 0; k < 20; k++ {
+		mixed := strings.TrimLeft(fn[:k]+fo[k:], " ")
+		if v, err := strconv.ParseInt(mixed, 10, 64); err == nil && v == size {
+			return true
+		}
+	}
+	return false
 }
 
 func (st *runState) runProc(pi int, ops []Op) {
